@@ -100,13 +100,25 @@ func Main() int {
 				json.NewEncoder(os.Stdout).Encode(subResult{Err: "unknown mutant"})
 				return 0
 			}
-			path := filepath.Join(absRepo, m.File)
-			src, err := os.ReadFile(path)
-			if err != nil || strings.Count(string(src), m.Old) != 1 {
-				json.NewEncoder(os.Stdout).Encode(subResult{Err: "stale"})
-				return 0
+			overlay = map[string][]byte{}
+			edits := append([]Edit{{File: m.File, Old: m.Old, New: m.New}}, m.More...)
+			for _, e := range edits {
+				path := filepath.Join(absRepo, e.File)
+				src, ok := overlay[path]
+				if !ok {
+					var err error
+					src, err = os.ReadFile(path)
+					if err != nil {
+						json.NewEncoder(os.Stdout).Encode(subResult{Err: "stale"})
+						return 0
+					}
+				}
+				if strings.Count(string(src), e.Old) != 1 {
+					json.NewEncoder(os.Stdout).Encode(subResult{Err: "stale"})
+					return 0
+				}
+				overlay[path] = []byte(strings.Replace(string(src), e.Old, e.New, 1))
 			}
-			overlay = map[string][]byte{path: []byte(strings.Replace(string(src), m.Old, m.New, 1))}
 		}
 		res := runOne(p, *tier, absRepo, absVerif, config, overlay)
 		json.NewEncoder(os.Stdout).Encode(res)
